@@ -33,3 +33,139 @@ Example C04_update_example :
   let t := TData (mkHeader 2 7 None None (FcResponse RsSlave StDataLow)) [5; 6] in
   exists p', p_receive_reply p t = Ok (p', Some EvDataExchanged) /\ pe_pi_i p' = [5; 6].
 Proof. eexists. split; reflexivity. Qed.
+
+(* ================================================================================================ *)
+(* C04 at the level of the DP master and of histories (Proofs/C04Proofs.v; histories, ghost log and
+   `accepts` as in Properties/C14.v).
+   dx_accepts p t: peripheral p is in PreDataExchange / DataExchange with no diagnostics request in flight and
+   t is a well-formed Data_Exchange reply for its input image (DpOracle.dx_reply_payload -- the predicate of
+   the executable monitor: data response with status Ok / DataLow / DataHigh and exactly length pi_i
+   bytes), or t is a short confirmation and the peripheral has no inputs. *)
+From PB Require Import Fdl FdlProofs C15Proofs.
+From PB Require Import DpMaster DpOracle C14History C04Proofs.
+
+(* C04_event_iff, peripheral level, from EVERY peripheral state: DataExchanged is reported iff dx_accepts;
+   pi_i is then the payload (dx_new_pi_i; unchanged for the SC of an input-less peripheral) and untouched
+   otherwise; pi_q never changes *)
+Theorem C04_event_iff : forall p t p' ev,
+  p_receive_reply p t = Ok (p', ev) ->
+  (ev = Some EvDataExchanged <-> dx_accepts p t = true) /\
+  pe_pi_i p' = (if dx_accepts p t then dx_new_pi_i p t else pe_pi_i p) /\
+  pe_pi_q p' = pe_pi_q p.
+Proof. exact reply_event_iff. Qed.
+Print Assumptions C04_event_iff.
+
+(* C04_event_iff + C04_others_untouched, master level, from EVERY master state (reply_spec): a reply is
+   handled by the peripheral whose turn is in progress (slot i, address = addr); no other slot changes at all
+   (nth_error equal for j <> i: neither images nor anything else); pi_q of slot i is unchanged; pi_i of slot i
+   is the payload iff dx_accepts; DataExchanged is in last_events iff dx_accepts, with the handle of slot i *)
+Theorem C04_others_untouched : forall m addr t m',
+  dp_receive_reply m addr t = Ok m' -> reply_spec m addr t m'.
+Proof. exact reply_effect. Qed.
+Print Assumptions C04_others_untouched.
+
+(* ... and transmit_telegram, from EVERY master state, changes no process image and reports no peripheral
+   event other than Offline (so DataExchanged is reported only as above) *)
+Theorem C04_transmit_touches_no_image : forall pa bufsize m now hp m' o,
+  dp_transmit pa bufsize m now hp = Ok (m', o) ->
+  (forall j, images m' j = images m j) /\
+  (forall h e, ev_peripheral (dm_events m') = Some (h, e) -> e = EvOffline).
+Proof. exact tx_images. Qed.
+Print Assumptions C04_transmit_touches_no_image.
+
+(* ... and over histories (image_step_ok per callback): pi_i of a slot changes only in receive_reply for the
+   slot whose turn it is; pi_q of a slot changes only by the user's write to it and then equals what was written *)
+Theorem C04_images_history : forall auto pa bufsize m0 cbs tr,
+  run_g auto pa bufsize m0 cbs = Ok tr -> Forall image_step_ok tr.
+Proof. exact images_history. Qed.
+Print Assumptions C04_images_history.
+
+(* C04_wrong_replies_harmless: a reply that is not dx_accepts for the peripheral whose turn it is (wrong
+   length, error status, SC although inputs are configured, diagnostics reply, anything in a state other
+   than data exchange) changes no image of any peripheral ... *)
+Theorem C04_wrong_replies_harmless : forall m addr t m',
+  dp_receive_reply m addr t = Ok m' ->
+  (forall i r p, pos_rem m = i :: r -> slot m i = Some p -> dx_accepts p t = false) ->
+  forall j, images m' j = images m j.
+Proof. exact wrong_reply_images. Qed.
+Print Assumptions C04_wrong_replies_harmless.
+
+(* ... and never panics: Peripheral::receive_reply is total on every SC / response telegram from every
+   peripheral state whose frame count bit is active (invariant of all histories, safe_inv) ... *)
+Theorem C04_reply_total_peripheral : forall p t,
+  pe_fcb p <> FcbInactive -> reply_shape t -> exists r, p_receive_reply p t = Ok r.
+Proof. exact receive_reply_total. Qed.
+Print Assumptions C04_reply_total_peripheral.
+
+(* ... DpMaster::receive_reply is total on every admissible reply for the outstanding request ... *)
+Theorem C04_reply_total_master : forall m a t own,
+  safe_inv m (Some a) -> admissible own a t = true -> exists m', dp_receive_reply m a t = Ok m'.
+Proof. exact reply_total. Qed.
+Print Assumptions C04_reply_total_master.
+
+(* ... and safe_inv holds after every history that respects the FdlApplication contract (= C14_contract_safe) *)
+Theorem C04_no_crash_history : forall auto pa bufsize m0 cbs tr a t,
+  safe_init m0 -> run_g auto pa bufsize m0 cbs = Ok tr ->
+  pend_run (p_address pa) None tr = Some (Some a) -> admissible (p_address pa) a t = true ->
+  exists m', dp_receive_reply (final m0 tr) a t = Ok m'.
+Proof. exact contract_safe_history. Qed.
+Print Assumptions C04_no_crash_history.
+
+(* C04_pi_q_user_writes (q_item): over arbitrary histories with user writes anywhere, every Data_Exchange
+   request carries exactly the output image as the user last wrote it (qs, initially q_of m0) when the master
+   is in Operate at the time of the transmit callback, and zeros of the same length in Clear; the master
+   itself never changes pi_q (q_inv: the stored pi_q is qs at every callback) *)
+Theorem C04_pi_q_user_writes : forall auto pa bufsize m0 qs0 cbs tr,
+  q_inv m0 qs0 -> run_g auto pa bufsize m0 cbs = Ok tr ->
+  accepts (nat -> bytes) q_inv q_item qs0 m0 tr.
+Proof. exact pi_q_history. Qed.
+Print Assumptions C04_pi_q_user_writes.
+
+Theorem C04_pi_q_init : forall m, q_inv m (q_of m).
+Proof. exact q_inv_init. Qed.
+Print Assumptions C04_pi_q_init.
+
+(* C04_end_to_end: composition with the FDL station model (Model/Fdl.v) running DP masters as its
+   applications (dp_app_ops).  Whatever is in the receive buffer, at any time, in any station state: every
+   telegram the station hands to a DP master's receive_reply is admissible (C15_delivered_reply_shape,
+   Proofs/C15Proofs.poll_reply_shape): a short confirmation or a response from the addressed station to this
+   master.  Telegrams from another source, to another destination, requests, tokens never reach
+   receive_reply ... *)
+Theorem C04_end_to_end : forall bufsize (f : fdl) (now : Z) (pin : phy_in) (apps : list dpm)
+    (f' : fdl) (o : phy_out) (apps' : list dpm) (calls : list call) (i : nat) (a : Z) (t : telegram),
+  poll (dp_app_ops bufsize) f now pin apps = Ok (f', o, apps', calls) ->
+  In (CallReceiveReply i a t) calls -> admissible (ts f) a t = true.
+Proof. exact end_to_end. Qed.
+Print Assumptions C04_end_to_end.
+
+(* ... and a delivered reply is processed by a master that is waiting for it without panic and with the
+   effect reply_spec (C04_others_untouched / C04_event_iff) *)
+Theorem C04_end_to_end_effect : forall bufsize (f : fdl) (now : Z) (pin : phy_in) (apps : list dpm)
+    (f' : fdl) (o : phy_out) (apps' : list dpm) (calls : list call) (i : nat) (a : Z) (t : telegram),
+  poll (dp_app_ops bufsize) f now pin apps = Ok (f', o, apps', calls) ->
+  In (CallReceiveReply i a t) calls ->
+  forall m, safe_inv m (Some a) -> exists m', dp_receive_reply m a t = Ok m' /\ reply_spec m a t m'.
+Proof. exact end_to_end_effect. Qed.
+Print Assumptions C04_end_to_end_effect.
+
+Theorem C04_reply_ok_is_admissible : forall own a t, reply_ok own a t <-> admissible own a t = true.
+Proof. exact reply_ok_admissible. Qed.
+Print Assumptions C04_reply_ok_is_admissible.
+
+(* non-vacuity: a wrong-length reply and an error-status reply are not accepted, a well-formed one is; a
+   user write between two polls is what the next Data_Exchange request carries *)
+Example C04_accept_examples :
+  let p := set_state (periph_new 7 default_options [0; 0] [9] 0) PsDataExchange in
+  let rsp s pdu := TData (mkHeader 2 7 None None (FcResponse RsSlave s)) pdu in
+  dx_accepts p (rsp StDataLow [5; 6]) = true /\ dx_accepts p (rsp StDataLow [5]) = false /\
+  dx_accepts p (rsp StNoResources [5; 6]) = false /\ dx_accepts p TShortConf = false /\
+  dx_accepts (set_state (periph_new 7 default_options [] [9] 0) PsDataExchange) TShortConf = true.
+Proof. repeat split; reflexivity. Qed.
+
+Example C04_user_write_example :
+  let p := set_state (periph_new 7 default_options [0; 0] [9] 0) PsDataExchange in
+  let m0 := set_op (set_last_gc (set_slots (dp_new 1 false) [Some p]) (Some 0)) OpOperate in
+  exists tr, run_g true default_params 256 m0 [CWriteQ (mkHandle 0 7) [42]; CTx 1 false] = Ok tr /\
+    map (fun it => map (fun e => match e with GSend i _ _ h pdu => Some (i, is_dx_req h, pdu) | _ => None end)
+                       (it_log it)) tr = [[]; [Some (0%nat, true, [42])]].
+Proof. cbv zeta. eexists. split; vm_compute; reflexivity. Qed.
